@@ -173,6 +173,35 @@ pub fn explore_sim<O, M, J>(
             diverged: run.diverged,
         })
     });
+    // thorough tier: the all-default execution is repeated under further seeds (different TLS
+    // randoms, connection ids and select! orders serialise simultaneous events differently)
+    let extra: u64 = std::env::var("VERIF_EXTRA_SEEDS").ok().and_then(|s| s.parse().ok()).unwrap_or(0);
+    if res.is_ok() && !out.poisoned {
+        for k in 1..=extra {
+            let m = make.clone();
+            let o = sim_exec(seed + k, &[], latency_us, move |s| m(s));
+            out.evaluations += 1;
+            out.count("executions_under_extra_seeds", 1);
+            let replay = json!({ "unit": unit, "choices": [], "seed": seed + k });
+            if o.hung {
+                out.violation("hang", "execution did not finish within the wall-clock watchdog".to_string(), replay);
+                out.poisoned = true;
+                break;
+            }
+            if let Some(run) = o.run {
+                if panics_are_violations {
+                    for p in &o.panics {
+                        out.violation(panic_key(p), format!("panic `{}` at {}", p.message, p.location), replay.clone());
+                    }
+                }
+                let j = judge(&run.obs, &o.panics, &[]);
+                out.class(j.class);
+                for (k2, m2) in j.violations.into_iter().chain(run.post.clone()) {
+                    out.violation(k2, m2, replay.clone());
+                }
+            }
+        }
+    }
     match res {
         Ok(stats) => {
             if stats.capped {
